@@ -1,6 +1,8 @@
 // C08 correspondence probe: drives the real util::rb_tree::{container,chain} of /repo's current tree with the
 // op lines that the Lean model driver (iprmodel c08) also reads, and prints the same observation lines.
 // Lines starting with '@' are implementation-only assertions (parent links, pointer identity).
+// Ops: new <flavour> <cmp> | ins <key> | reins <key> (intrusive flavour: the node object already linked under <key> is offered
+// again) | find <key> | dump | pdump | stat.
 // `pdump` prints size() and the pre-order shape in which every node also names the key of the node its parent()
 // field points to ("/" for null): the pointer-level model (lean/IprModel/RBLinked.lean) prints the same line.
 #include <ipr/utility>
@@ -52,6 +54,7 @@ static int three_way(const Key& a, const Key& b)
 struct Tree {
    virtual ~Tree() { }
    virtual std::string insert(const Key&) = 0;
+   virtual std::string reinsert(const Key&) { return "bad-op"; }      // intrusive flavour only, see ChainTree
    virtual std::string find(const Key&) = 0;
    virtual std::string dump(bool& links_ok) = 0;
    virtual std::string pdump() = 0;
@@ -141,13 +144,29 @@ struct CNode : rb::link<CNode> { Key key; };
 
 struct ChainTree final : Tree, rb::chain<CNode> {
    std::vector<std::unique_ptr<CNode>> pool;
+   std::map<Key, CNode*> linked;          // the node object that was linked into the tree for each key (the first one offered)
    static int cmp(const CNode& data, const CNode& key) { return three_way(data.key, key.key); }
    std::string insert(const Key& k) override {
       pool.push_back(std::make_unique<CNode>());
       CNode* z = pool.back().get();
       z->key = k;
       CNode* r = rb::chain<CNode>::insert(z, [](const CNode& a, const CNode& b) { return cmp(a, b); });
+      linked.emplace(k, z);
       return "size=" + std::to_string(this->size()) + "\n@ptr=" + (r == z ? "1" : "0");
+   }
+   // An intrusive container does not own its nodes: the client may offer the SAME OBJECT again (root, inner node or leaf).  An equal
+   // element is present -- the object itself -- so the offer is ignored: the tree, every link and every colour stay as they are.
+   // The links and the colour of the object are read before and after the call, and those of its neighbours are covered by the
+   // `dump` / `pdump` / `stat` / `find` ops that follow.
+   std::string reinsert(const Key& k) override {
+      auto it = linked.find(k);
+      if (it == linked.end()) return "bad-op";
+      CNode* z = it->second;
+      CNode* const l = z->left(); CNode* const rr = z->right(); CNode* const p = z->parent(); const rb::Color col = z->color;
+      CNode* const root_before = this->root;
+      CNode* r = rb::chain<CNode>::insert(z, [](const CNode& a, const CNode& b) { return cmp(a, b); });
+      const bool same = z->left() == l and z->right() == rr and z->parent() == p and z->color == col and this->root == root_before;
+      return "size=" + std::to_string(this->size()) + "\n@ptr=" + (r == z ? "1" : "0") + "\n@reoffered_node_untouched=" + (same ? "1" : "0");
    }
    std::string find(const Key& k) override {
       CNode* p = rb::chain<CNode>::find(k, [](const CNode& a, const Key& b) { return three_way(a.key, b); });
@@ -230,6 +249,7 @@ int main()
       if (op == "new") { t = make_tree(a, b); std::cout << "ok" << std::endl; }   // flush: a later hang must not lose finished sequences
       else if (t == nullptr) std::cout << "bad-op\n";
       else if (op == "ins") std::cout << t->insert(parse_key(a)) << '\n';
+      else if (op == "reins") std::cout << t->reinsert(parse_key(a)) << '\n';
       else if (op == "find") std::cout << t->find(parse_key(a)) << '\n';
       else if (op == "dump") { bool ok = true; std::cout << t->dump(ok) << "\n@links=" << (ok ? 1 : 0) << '\n'; }
       else if (op == "pdump") std::cout << t->pdump() << '\n';
